@@ -62,6 +62,7 @@ def matrix(tier):
     for c in mx.relation_cells("xml"):
         i += 1
         yield dict(c, opts={"force_types": bool(i % 2), "binary": bool(i % 3 == 0)})
+        yield dict(c, opts={"force_types": bool(i % 2), "binary": bool(i % 3 == 0)}, touch=True)
     for ft in (False, True):
         for c in mx.value_cells("xml"):
             i += 1
@@ -133,6 +134,10 @@ def check(case, ctx):
     for k, v in opts.items():
         ctx.count("opt:%s=%s" % (k, v))
     before = canon(d)
+    if case.get("touch", len(case["ops"]) % 3 == 0):
+        from ..touch import readonly_touch
+        readonly_touch(d, len(case["ops"]), foreign_lookups=False)     # reads must not leak into what is written
+        ctx.count("touched_before_writing")
     try:
         text, d2 = roundtrip(d, opts)
     except Exception as e:  # writing / reading back an expressible document must not fail
